@@ -355,7 +355,7 @@ func passG(repo string, cfg *vc.SolverConfig, only, corpus, scratch string) (*vc
 	x := vc.NewExec(ctx, lr.Prog, sink)
 	x.RegisterStdModels()
 	x.Goexit = false
-	gp := &gpass{x: x, lr: lr, roles: roleSpecs, res: res, only: only, roleCount: map[string]int{}, flagSeen: map[string]bool{}}
+	gp := &gpass{x: x, lr: lr, roles: roleSpecs, res: res, only: only, roleCount: map[string]int{}, flagSeen: map[string]bool{}, testsDir: tests}
 	gp.configure()
 	gp.registerWrapperModels()
 	nClos := 0
